@@ -3,6 +3,9 @@ sidecar contract; custom units implement the special proof rules (REGEX-STRUCT, 
 K3 schemas) and the bounded stand-ins (labelled `bounded`, never counted as discharged)."""
 
 
+import json
+
+
 def K(target, **kw):
     return dict(kind='contract', target=target, **kw)
 
@@ -37,6 +40,10 @@ K3_NOTE = ("K3: the verified text is code emitted by the real compiler for schem
 K3_ASSUME = COMMON_ASSUMPTIONS + ["A-COMP", "A-PURE", "A-MARKER", "HoleC for child code",
                                   "K2 contracts of __quote/__convert (proved under C02)"]
 FRESH = U('pyvc.fresh', 'unit', 'FRESH', needs_k3=True)
+COMMON_FRAMES = [U('pyvc.frames', 'render_write_frame', 'render.write_frame'),
+                 U('pyvc.frames', 'instance_state', 'instance_state'),
+                 U('pyvc.ordered', 'unit', 'compile_path.no_set_iteration'),
+                 U('pyvc.frames', 'decorator_audit', 'decorator_audit')]
 S_MORE = [K("k3::S-Switch"), K("k3::S-Case-Condition")]
 S_COMMENT = [K("k3::S-Comment-noninterp"), K("k3::S-Comment-drop"), K("k3::S-Comment-interp")]
 TAL_BASIC = [K("k3::S-Define"), K("k3::S-Define-clauses"), K("k3::S-Condition"), K("k3::S-Content"),
@@ -57,9 +64,22 @@ K2Q = [K("compiler.py::K2.__quote"), K("compiler.py::K2.__quote@char"), K("compi
 K3TECH = TECH + "; applied to code emitted by the real compiler for schema templates (K3)"
 
 
+def with_common(units):
+    """every property whose statement is about compiled templates relies on the same frame facts: the
+    instance is not changed by compiling / rendering, program builders keep their state per instance,
+    no set is iterated on the compile path"""
+    out = list(units)
+    have = {json.dumps(u, sort_keys=True, default=str) for u in out}
+    for u in COMMON_FRAMES:
+        k = json.dumps(u, sort_keys=True, default=str)
+        if k not in have:
+            out.append(u)
+    return out
+
+
 def k3prop(text, units, not_decided=(), extra_note=""):
     return {"technique": K3TECH, "level_text": text, "level_note": K3_NOTE + extra_note,
-            "units": units, "not_decided": list(not_decided), "assumptions": K3_ASSUME}
+            "units": with_common(units), "not_decided": list(not_decided), "assumptions": K3_ASSUME}
 
 
 PROPS = {
@@ -360,3 +380,9 @@ PROPS = {
 CONF = U('pyvc.conformance', 'unit', 'conformance')
 for _p in PROPS.values():
     _p['units'] = list(_p['units']) + [CONF]
+
+
+# the shared frame facts are part of every property's check (a change that breaks one of them breaks
+# whichever property is looked at)
+for _p in PROPS.values():
+    _p['units'] = with_common(_p['units'])
